@@ -201,7 +201,7 @@ def plan(prop, tier):
         p["abci"] = 60 if tier == "quick" else 600
     if tier == "thorough":
         p["gen"] = scale(p.get("gen", []), 10)
-        p["tc_max"] = 120000
+        p["tc_max"] = 50000
         p["mc"] = [THOROUGH_MC.get(m["name"], m) for m in p.get("mc", [])]
         p["tc"] = [THOROUGH_MC.get(m["name"], m) for m in p.get("tc", [])]
         if "replicas" in p:
